@@ -60,6 +60,9 @@ type vDecision struct {
 	pre     map[cloud.InstanceID]vInstView
 	result  int  // -1 pending, 0 refused, 1 accepted
 	claimed bool // a pool-side --detach call has been attributed to it
+	// sequence number at which the scheduler last read pool.Running() before
+	// this decision: what the pool learned later could not influence it
+	runningSeq int64
 }
 
 type vVMInfo struct {
@@ -124,22 +127,24 @@ type vMonitor struct {
 	// to the current generation by a successful --list of their VM
 	inherited map[string]map[vProcRef]bool
 	// scheduler I/O of the current generation
-	lastEntries   map[string]container.QueueEnt
-	lastRunning   map[string]time.Time
-	lastEntriesAt time.Time
-	entriesCalls  int64
-	createCalls   int
-	quotaErrs     int
-	lastQuotaErr  time.Time
-	lastQuotaGen  int
-	startsOK      int
-	detachTotal   int
-	killsSeen     int
-	excused       int
-	restartsAlive int // restarts that happened while >=1 crunch-run was alive
-	lockFails     int
-	heldNow       map[cloud.InstanceID]bool
-	intended      map[cloud.InstanceID]worker.IdleBehavior // what the operator last asked for
+	lastEntries    map[string]container.QueueEnt
+	lastRunning    map[string]time.Time
+	lastRunningSeq int64                         // m.seq when lastRunning was read
+	ackSeq         map[string]map[vProcRef]int64 // when an inherited process was first shown to (or hidden from) the current generation by a --list
+	lastEntriesAt  time.Time
+	entriesCalls   int64
+	createCalls    int
+	quotaErrs      int
+	lastQuotaErr   time.Time
+	lastQuotaGen   int
+	startsOK       int
+	detachTotal    int
+	killsSeen      int
+	excused        int
+	restartsAlive  int // restarts that happened while >=1 crunch-run was alive
+	lockFails      int
+	heldNow        map[cloud.InstanceID]bool
+	intended       map[cloud.InstanceID]worker.IdleBehavior // what the operator last asked for
 	// pool-side view of "crunch-run --detach" calls that have not returned to
 	// the pool yet (key vm/uuid) and the StartContainer decision behind each
 	inflight     map[string]int
@@ -505,7 +510,14 @@ func (m *vMonitor) listAnswered(info *vVMInfo, gen int, out string) {
 		for ref := range refs {
 			if ref.VM == info.id {
 				delete(refs, ref)
-				m.ev(gen, "inherited-ack", string(info.id), uuid, fmt.Sprintf("listed=%v", listed[uuid]))
+				seq := m.ev(gen, "inherited-ack", string(info.id), uuid, fmt.Sprintf("listed=%v", listed[uuid]))
+				if m.ackSeq == nil {
+					m.ackSeq = map[string]map[vProcRef]int64{}
+				}
+				if m.ackSeq[uuid] == nil {
+					m.ackSeq[uuid] = map[vProcRef]int64{}
+				}
+				m.ackSeq[uuid][ref] = seq
 			}
 		}
 		if len(refs) == 0 {
@@ -643,7 +655,21 @@ func (m *vMonitor) detach(info *vVMInfo, gen int, inner test.SSHExecFunc, env ma
 
 	// --- at most one live process per container
 	for _, ref := range res.overlap {
-		if m.inherited[uuid][ref] || inhAtArrival[ref] {
+		// The scheduler decides with the pool.Running() answer it read at the
+		// beginning of its pass. If the --list that revealed an inherited
+		// process to the pool arrived after that read, the decision could
+		// not take it into account (lead, after a thorough-tier false alarm:
+		// the "ack" came 3 ms before the --detach of a pass that had started
+		// 6 ms earlier).
+		ackedAfterSnapshot := false
+		d2 := dec
+		if d2 == nil {
+			d2 = m.decisions[uuid]
+		}
+		if a, ok := m.ackSeq[uuid][ref]; ok && d2 != nil && a > d2.runningSeq {
+			ackedAfterSnapshot = true
+		}
+		if m.inherited[uuid][ref] || inhAtArrival[ref] || ackedAfterSnapshot {
 			// Process left over from before the restart on a VM that has
 			// not answered a --list of this generation yet: the
 			// dispatcher cannot know about it. By design it gives up
@@ -858,6 +884,7 @@ func (p *vPool) Running() map[string]time.Time {
 			cp[k] = v
 		}
 		m.lastRunning = cp
+		m.lastRunningSeq = m.seq
 	}
 	m.mu.Unlock()
 	return r
@@ -875,7 +902,7 @@ func (p *vPool) StartContainer(it arvados.InstanceType, ctr arvados.Container) b
 	var d *vDecision
 	if p.gen == m.curGen && !m.isDead(p.gen) {
 		seq := m.ev(p.gen, "start-decision", "", ctr.UUID, fmt.Sprintf("type=%s argstate=%s argprio=%d", it.Name, ctr.State, ctr.Priority))
-		d = &vDecision{seq: seq, gen: p.gen, uuid: ctr.UUID, it: it.Name, pre: pre, result: -1}
+		d = &vDecision{seq: seq, gen: p.gen, uuid: ctr.UUID, it: it.Name, pre: pre, result: -1, runningSeq: m.lastRunningSeq}
 		m.decisions[ctr.UUID] = d
 		if ctr.State != arvados.ContainerStateLocked || ctr.Priority < 1 {
 			m.violate("[excl] StartContainer(%s) called with a container record in state %s priority %d (seq %d)", ctr.UUID, ctr.State, ctr.Priority, seq)
